@@ -21,6 +21,7 @@ def run(rep, tier, seed):
                         "work = instructions dispatched at every depth (H1) + dice rolled (H2); bounds are checked with slack K=6, C=2000: a CoC/Fate instruction rolls 2-4 dice for one op, a call adds 100",
                         "every case runs in a child process with ceilings 12 s and 1.5 GB heap; budgets 300 and 30000 (recommended), parse budget 10^7 (recommended) except in the parse-budget family; normal, max and min mode",
                         "families: unbounded loops/recursion (also through computed values, templates, callbacks), huge dice counts, exploding WoD/DC pools (low add line, huge sides, max mode), doubling strings and containers, "
+                        "budget sweep: corpus and generated programs under budgets 1..400 against their own run under budget 200000 (stopped with the budget error, or the same value/error); "
                         "long sums around the 8192-instruction buffer, block/template/parenthesis/array nesting around 20, operand counts around 1000, long sources under small parse budgets",
                         "for capacity families the generator knows the value of the full program; a run that returns anything else without an error is a truncation"]
     with Work("c07") as w:
@@ -32,6 +33,14 @@ def run(rep, tier, seed):
         ev = w.path("ev.ndjson")
         args = ["c07-exec", "-out", ev, "-workers", "12"] + (["-thorough"] if thorough else [])
         run_vh(args, env={"VERIF_SEED": str(seed)}, timeout=6000)
+        # ordinary programs under tiny budgets: stopped with the budget error, or exactly the unbudgeted result
+        run_vh(["corpus", w.path("corpus.ndjson")])
+        run_vh(["gen", "-out", w.path("gen.ndjson"), "-n", "6000" if thorough else "800", "-depth", "3"], env={"VERIF_SEED": str(seed)})
+        with open(w.path("in.ndjson"), "w") as out:
+            out.write(open(w.path("corpus.ndjson")).read()); out.write(open(w.path("gen.ndjson")).read())
+        run_vh(["c07-sweep", "-in", w.path("in.ndjson"), "-out", w.path("sweep.ndjson")] + (["-thorough"] if thorough else []), env={"VERIF_SEED": str(seed)}, timeout=6000)
+        with open(ev, "a") as out:
+            out.write(open(w.path("sweep.ndjson")).read())
         j = validate(w, ev)
         rows = read_ndjson(ev)
         for b in j["bad"]:
